@@ -12,12 +12,12 @@ Local Open Scope nat_scope.
 (*  Lexical layer and rules: the statements of YpRoundSpec.v                  *)
 (* ======================================================================== *)
 Lemma rule_roundtrip : rule_roundtrip_stmt.
-Proof. intros k fa D src pre rl r rest i n a g e Hs Hi Hw Hk Hr Hinv. apply (rule_at k fa D src pre rl r rest); assumption. Qed.
+Proof. intros k fa fp D src pre rl r rest i n a g e Hs Hi Hw Hk Hr Hinv. apply (rule_at k fa fp D src pre rl r rest); assumption. Qed.
 
 Lemma rules_roundtrip : rules_roundtrip_stmt.
 Proof.
-  intros k fa D l src pre gap rs rest i n a g e Hs Hi Hl Hw Hk He Hinv.
-  apply (rules_section_at k fa D l src pre gap rs rest); assumption.
+  intros k fa fp D l src pre gap rs rest i n a g e Hs Hi Hl Hw Hk He Hinv.
+  apply (rules_section_at k fa fp D l src pre gap rs rest); assumption.
 Qed.
 
 (* ======================================================================== *)
@@ -144,16 +144,16 @@ Proof. intros k ag H. unfold wf_agram in H. decompose [and] H. assumption. Qed.
 Lemma wf_agram_rule_kinds : forall k ag, wf_agram k ag -> Forall (rule_kind_ok k) (ag_rules ag).
 Proof. intros k ag H. unfold wf_agram in H. decompose [and] H. assumption. Qed.
 
-Lemma parse_at : forall k fa l ag,
+Lemma parse_at : forall k fa fp l ag,
   wf_layout l ag ->
   Forall (decl_kind_ok k) (ag_decls ag) -> Forall (rule_kind_ok k) (ag_rules ag) ->
   decls_pre l 0 (decls_off l) 0 (ag_decls ag) ast_new None ->
   tok_inv (declared_b ag) (decls_eff l 0 (decls_off l) 0 (ag_decls ag) ast_new) ->
   exists n',
-    parse true fa k (print l ag) (byte_len (print l ag)) (fuel_for (print l ag))
-    = Done (mkSt n' (ast_of fa l ag) (gat_of l ag) [], []).
+    parse true fa fp k (print l ag) (byte_len (print l ag)) (fuel_for (print l ag))
+    = Done (mkSt n' (ast_of fa fp l ag) (gat_of l ag) [], []).
 Proof.
-  intros k fa l ag [Hl0 [Hwd [Hl2 [Hwr Hwp]]]] Hkd Hkr Hpre Hinv. unfold decls_off in *.
+  intros k fa fp l ag [Hl0 [Hwd [Hl2 [Hwr Hwp]]]] Hkd Hkr Hpre Hinv. unfold decls_off in *.
   set (src := print l ag).
   assert (Hs : src = l_gap l [0] ++ print_decls l 0 (ag_decls ag) ++ kw_pp
                      ++ (l_gap l [2] ++ print_rules l 0 (ag_rules ag) ++ print_programs l ag))
@@ -167,12 +167,12 @@ Proof.
     by (rewrite Hs; lsolve).
   assert (Hi2 : byte_len (l_gap l [0]) + byte_len (print_decls l 0 (ag_decls ag))
                 = byte_len (l_gap l [0] ++ print_decls l 0 (ag_decls ag))) by (rewrite byte_len_app; reflexivity).
-  destruct (rules_roundtrip k fa (declared_b ag) l src _ _ (ag_rules ag) _ _ n1 _ (gat_of l ag) [] Hs2 Hi2 Hl2 Hwr Hkr
+  destruct (rules_roundtrip k fa fp (declared_b ag) l src _ _ (ag_rules ag) _ _ n1 _ (gat_of l ag) [] Hs2 Hi2 Hl2 Hwr Hkr
               (rules_end_programs l ag) Hinv) as [n2 H2].
   rewrite H2. clear H2. cbn [obind].
   unfold parse_programs.
-  set (a2 := rules_eff fa l 0 _ _ (ag_rules ag) _).
-  assert (Ha : ast_of fa l ag = programs_eff ag a2).
+  set (a2 := rules_eff fa fp l 0 _ _ (ag_rules ag) _).
+  assert (Ha : ast_of fa fp l ag = programs_eff ag a2).
   { unfold ast_of, a2, rules_off, decls_off. change (byte_len kw_pp) with 2. reflexivity. }
   assert (Hs3 : src = ((l_gap l [0] ++ print_decls l 0 (ag_decls ag)) ++ kw_pp ++ l_gap l [2] ++ print_rules l 0 (ag_rules ag))
                       ++ print_programs l ag) by (rewrite Hs; lsolve).
@@ -210,31 +210,31 @@ Proof.
 Qed.
 
 (* parse, then validate: the AST is the denoted one, the errors are exactly those of validating it *)
-Lemma run_case_at : forall k fa l ag,
+Lemma run_case_at : forall k fa fp l ag,
   wf_layout l ag ->
   Forall (decl_kind_ok k) (ag_decls ag) -> Forall (rule_kind_ok k) (ag_rules ag) ->
   decls_pre l 0 (decls_off l) 0 (ag_decls ag) ast_new None ->
   tok_inv (declared_b ag) (decls_eff l 0 (decls_off l) 0 (ag_decls ag) ast_new) ->
-  forall v, complete_and_validate (ast_of fa l ag) = Done v ->
-  run_case true fa k (print l ag)
-  = Done (TResult (ast_of fa l ag) (match v with Some e => [e] | None => [] end) (warnings_of fa l ag)).
+  forall v, complete_and_validate (ast_of fa fp l ag) = Done v ->
+  run_case true fa fp k (print l ag)
+  = Done (TResult (ast_of fa fp l ag) (match v with Some e => [e] | None => [] end) (warnings_of fa fp l ag)).
 Proof.
-  intros k fa l ag Hw Hkd Hkr Hpre Hinv v Hv. unfold run_case, yacc_new_gen.
+  intros k fa fp l ag Hw Hkd Hkr Hpre Hinv v Hv. unfold run_case, yacc_new_gen.
   rewrite (header_absent l ag (proj1 Hw)).
-  destruct (parse_at k fa l ag Hw Hkd Hkr Hpre Hinv) as [n' Hp]. rewrite Hp. cbn [obind ast].
+  destruct (parse_at k fa fp l ag Hw Hkd Hkr Hpre Hinv) as [n' Hp]. rewrite Hp. cbn [obind ast].
   rewrite Hv. cbn [obind app]. reflexivity.
 Qed.
 
 Lemma yacc_parse_roundtrip : yacc_parse_roundtrip_stmt.
 Proof.
-  intros k fa l ag Hag Hlay.
+  intros k fa fp l ag Hag Hlay.
   pose proof (decls_pre_wf k l ag Hag) as Hpre. pose proof (decls_tok_inv l ag) as Hinv.
   pose proof (wf_agram_decl_kinds k ag Hag) as Hkd. pose proof (wf_agram_rule_kinds k ag Hag) as Hkr.
-  destruct (yacc_parse_total true fa k (print l ag)) as [r Hr].
-  assert (Hv : exists v, complete_and_validate (ast_of fa l ag) = Done v).
+  destruct (yacc_parse_total true fa fp k (print l ag)) as [r Hr].
+  assert (Hv : exists v, complete_and_validate (ast_of fa fp l ag) = Done v).
   { unfold run_case, yacc_new_gen in Hr. rewrite (header_absent l ag (proj1 Hlay)) in Hr.
-    destruct (parse_at k fa l ag Hlay Hkd Hkr Hpre Hinv) as [n' Hp]. rewrite Hp in Hr. cbn [obind ast] in Hr.
-    destruct (complete_and_validate (ast_of fa l ag)) as [v| |]; [exists v; reflexivity | discriminate Hr ..]. }
+    destruct (parse_at k fa fp l ag Hlay Hkd Hkr Hpre Hinv) as [n' Hp]. rewrite Hp in Hr. cbn [obind ast] in Hr.
+    destruct (complete_and_validate (ast_of fa fp l ag)) as [v| |]; [exists v; reflexivity | discriminate Hr ..]. }
   destruct Hv as [v Hv]. exists v. split; [exact Hv|].
   apply run_case_at; assumption.
 Qed.
@@ -243,8 +243,8 @@ Qed.
    without error — for the repaired action span ([fa = true]) and for the code as it is *)
 Lemma yacc_roundtrip : yacc_roundtrip_stmt.
 Proof.
-  intros k fa l ag Hag Hlay.
-  apply (run_case_at k fa l ag Hlay (wf_agram_decl_kinds k ag Hag) (wf_agram_rule_kinds k ag Hag)
+  intros k fa fp l ag Hag Hlay.
+  apply (run_case_at k fa fp l ag Hlay (wf_agram_decl_kinds k ag Hag) (wf_agram_rule_kinds k ag Hag)
            (decls_pre_wf k l ag Hag) (decls_tok_inv l ag) None).
   apply (validation_clean k); assumption.
 Qed.
